@@ -19,7 +19,7 @@ LEVEL = {
          "block-WAND loops over real postings, executors and sort-key extraction are outside; K and the number of pushes are small and concrete"),
  "C07": ("K", "Codec level, CBMC: VInt family, posting-tail VInt, skip list write -> read -> seek for the three record options, in-block search (all sorted 128-arrays), field-norm code, bit-packer widths; term-key equality and arena copy of the indexing hash map (stacker fastcmp / fastcpy) for keys <= 40 / 70 bytes with memory-safety checks.",
          "fst dictionary, the arena hash map as a whole, SegmentWriter end-to-end, 128-value SIMD blocks and lists longer than 2 blocks + tail are outside"),
- "C08": ("K", "Codec level, CBMC: bit-packer round trip per width, monotonic mappings, range push-down through min/gcd, Line residual exactness condition, dense rank/select and sparse block kernels; stack merge of column indexes (rows-with-values of full / empty / legacy-v1 multivalued inputs shifted by the table offset).",
+ "C08": ("K+M", "Codec level, CBMC: bit-packer round trip per width, monotonic mappings, range push-down through min/gcd, Line residual exactness condition, dense rank/select and sparse block kernels; stack merge of column indexes (rows-with-values of full / empty / legacy-v1 multivalued inputs shifted by the table offset); z3 over the columnar crate's MIR: the optional-index writer picks the block encoding by the reader's predicate.",
          "column serializers / readers end-to-end, codec selection, dictionary columns, shuffled merges and v2 inputs of the stack merge are outside"),
  "C10": ("M", "z3 over the MIR of ManagedDirectory::garbage_collect, SegmentUpdater::list_files and the commit task: living set and deletion candidates computed under both locks, only managed-and-not-living paths marked, bookkeeping persisted after sync, GC only after publication; emptied segments leave the committed register before it is listed, the temporary doc store is untracked on the published meta (both with native probes).",
          "inventory liveness under real schedules and 'no orphan after any history' are data-level statements outside the encoding"),
